@@ -651,7 +651,12 @@ class World:
             cls = type(it)
             if cls in (ModuleHigh, ModuleMid, ModuleLow):
                 ch = it.charge
-                n = cls(it._type_id, state=it.state, charge=reg(ch, Charge(ch._type_id)) if ch is not None else None)
+                nch = None
+                if ch is not None:
+                    nch = reg(ch, Charge(ch._type_id))
+                    for eid, mode in (getattr(ch, '_BaseItemMixin__effect_mode_overrides') or {}).items():
+                        nch.set_effect_mode(eid, mode)
+                n = cls(it._type_id, state=it.state, charge=nch)
             elif cls in (Drone, FighterSquad):
                 n = cls(it._type_id, state=it.state)
             else:
